@@ -277,7 +277,14 @@ func strRepeatFunc(_ *ctx.EvalCtx, receiver object.Object, args ...object.Object
 	}
 
 	val := receiver.(*object.Str).Value
-	repeated := strings.Repeat(val, int(firstArg.Value))
+	count := int(firstArg.Value)
+
+	// a negative count repeats nothing
+	if count < 0 {
+		count = 0
+	}
+
+	repeated := strings.Repeat(val, count)
 
 	return &object.Str{Value: repeated}, nil
 }
